@@ -17,10 +17,17 @@ import (
 	"golang.org/x/tools/go/ssa"
 )
 
+type resTerm struct {
+	Idx  int    // result index
+	Kind string // int | bool | nil | len
+	T    *Term
+}
+
 type ObPath struct {
 	PC   []*Term
 	Cond *Term
 	Note string
+	Results []resTerm // post obligations: scalar handles on the returned values (for replaying the clause on real outputs)
 	// values to ask the solver for when this path is the counterexample
 	Trace []string
 }
@@ -186,6 +193,7 @@ type Exec struct {
 	st       *State
 	work     []*State
 
+	curResults []resTerm // handles on the values being returned (set while postconditions are checked)
 	allocFacts map[*Term]bool // "this stored reference is allocated" facts (kept under quantifier binders)
 	obls     map[string]*Obligation
 	oblList  []*Obligation
@@ -342,7 +350,11 @@ func (ex *Exec) oblige(kind string, site string, pos token.Pos, text string, con
 		// universally quantified goals are proved for fresh constants, and the path facts are instantiated at them
 		goal, sks := ex.skolemizeGoal(cond)
 		pc = append(pc, ex.instantiateAt(pc, append(append([]*Term(nil), ex.st.hints...), sks...), goal)...)
-		ob.Paths = append(ob.Paths, ObPath{PC: pc, Cond: goal, Trace: append([]string(nil), ex.st.trace...)})
+		op := ObPath{PC: pc, Cond: goal, Trace: append([]string(nil), ex.st.trace...)}
+		if kind == "post" {
+			op.Results = ex.curResults
+		}
+		ob.Paths = append(ob.Paths, op)
 	} else if len(ob.Paths) == 0 {
 		// keep the obligation visible even when it folded to true on every path
 	}
